@@ -484,7 +484,7 @@ func c21Invariants(c *kit.Case, tag string, prior *c21State, sel c21ImplSel, n i
 	for pos, w := range sel.WStar {
 		id := int(w.PackageSpec.Length)
 		if pos >= len(sel.WBang) {
-			for d := range resid[id] {
+			for _, d := range resid[id].sorted() {
 				if !provided[d] {
 					c.Failf("%s: report %d is chosen at position %d of W* but its dependency %d is not the package of any earlier report in W*", tag, id, pos, d)
 				}
